@@ -151,6 +151,14 @@ def finish(res, level_note_extra=None):
     pid = res.pid
     total, done, assumptions, fails, names = obligations(pid)
     forbidden = grep_forbidden()
+    if res.tier == "thorough" and done == total and total > 0:
+        # independent re-check of the compiled property file and everything it depends on
+        rc, out = build.sh(["timeout", "3000", "coqchk", "-silent", "-o", "-Q", ".", "Verif",
+                            "Verif.Props.Properties_%s" % pid], cwd=COQ, timeout=3100)
+        summary = out[out.find("CONTEXT SUMMARY"):][:3000] if "CONTEXT SUMMARY" in out else out[-1500:]
+        res.notes.append("coqchk rc=%d: %s" % (rc, " ".join(summary.split())[:1500]))
+        if rc != 0:
+            fails.append("coqchk rejects Properties_%s: %s" % (pid, out[-400:]))
     known = load_known()
     unlisted = []
     printed_known = set()
